@@ -4,7 +4,7 @@
    pair of rows that no lock / atomic / thread class / happens-before fact justifies, so a
    broken table is reported by the name of the field, not only by a failing Example. *)
 From Coq Require Import ZArith List Bool.
-From IV Require Import Model.LockTable.
+From IV Require Export Model.LockTable.
 Import ListNotations.
 Open Scope Z_scope.
 
